@@ -139,7 +139,7 @@ _run1 = run
 def run(cx):
     from .. import rules_s as S
     _run1(cx)
-    S.carry_chain(cx, 'A-CARRY', ('gm_sm9::',), 2, only=('mod_n_from_hash',))
+    S.carry_chain(cx, 'A-CARRY', ('gm_sm9::',), 0, only=('mod_n_from_hash',))
     fn = cx.fn('gm_sm9::fields::mod_n_from_hash', 'I-BARRETT')
     if fn is not None:
         S.barrett(cx, 'I-BARRETT', fn, cx.F)
